@@ -317,6 +317,9 @@ static void op_sample(actor *a, int ui)
     int inc0 = u->incarnation;
     int ended_before = (u->ends == inc0);
     int started_before = (u->starts == inc0);
+    /* only a TERMINATED observation that was complete before this call started orders
+     * itself before this call's read (several samplers run concurrently) */
+    int seen_term_before = (ALOAD(u->seen_terminated) == inc0);
     ABT_thread_state st;
     int rc = ABT_thread_get_state(u->h, &st);
     CHECK_RC(rc, "ABT_thread_get_state");
@@ -325,10 +328,10 @@ static void op_sample(actor *a, int ui)
     if (st == ABT_THREAD_STATE_TERMINATED) {
         if (!(u->ends == inc0 || u->cancelled || u->exited))
             viol("u%d reported TERMINATED but has neither finished, exited nor been cancelled", ui);
-        u->seen_terminated = inc0;
+        ASTORE(u->seen_terminated, inc0);
         stat_add("sample_terminated", 1);
     } else {
-        if (u->seen_terminated == inc0)
+        if (seen_term_before)
             viol("u%d left TERMINATED (now %d) without a revive", ui, (int)st);
         if (ended_before && u->joined)
             viol("u%d reports state %d after it was joined", ui, (int)st);
